@@ -67,6 +67,35 @@ class _GlobalEnv:
         return False
 
 
+# Violation classes that each property's own statement licenses.  Anything else
+# observed in a world of that property is counted as a probe ("out_of_scope:*")
+# and is NOT reported: e.g. get_clusters raising in a C13 world is C01's
+# business (C13 speaks only about clusters that were returned), input
+# immutability is stated by C01 and C17 only, and "equal to the isolated
+# execution" is the determinism clause of C01 (for C17: the same *class*).
+_ALL = {"HANG", "CRASH"}
+SCOPE = {
+    "C01": _ALL | {"UNEXPECTED_EXC", "MISSING_VALUEERROR", "MALFORMED", "EMPTY", "DUP", "RANGE", "OVERLAP", "SPECIES",
+                   "DISCONNECTED", "CELL_PBC", "NONDET_HISTORY", "NONDET_HASHSEED", "INPUT_MUTATED", "RESULT_MUTATED"},
+    "C13": _ALL | {"DIM_MISMATCH", "DIM_UNSTABLE", "UNEXPECTED_EXC"},
+    "C17": _ALL | {"UNEXPECTED_EXC", "MISSING_VALUEERROR", "CLASS_MISMATCH", "REGION", "NONDET_HISTORY", "NONDET_HASHSEED", "INPUT_MUTATED"},
+    "C02": _ALL | {"INCOMPLETE", "WRONG_DIM", "UNEXPECTED_EXC"},
+    "C03": _ALL | {"WRONG_SPLIT", "WRONG_DIM", "UNEXPECTED_EXC"},
+    "C04": _ALL | {"CELL_PBC", "FORMULA", "IDENTITY", "ANALYZE_EXC", "UNEXPECTED_EXC"},
+}
+# C13 speaks about the shortcut on returned clusters: only the DIM operation can violate it
+SCOPE_OPS = {"C13": {"DIM"}}
+
+
+def in_scope(prop, cls, opname):
+    if cls not in SCOPE.get(prop, ()):
+        return False
+    ops = SCOPE_OPS.get(prop)
+    if ops is not None and opname not in ops:
+        return False
+    return True
+
+
 class World:
     def __init__(self, spec, journal=None, helper=None, collect_samples=True):
         self.spec = spec
@@ -130,6 +159,9 @@ class World:
     def _violate(self, cls, i, detail, **extra):
         if self.violation is None:
             op = self.spec["ops"][i] if i is not None and i < len(self.spec["ops"]) else {}
+            if not in_scope(self.prop, cls, op.get("op")):
+                self.probes["out_of_scope:" + cls] += 1
+                return
             sid = op.get("s")
             if sid is None and "ref" in op:
                 sid = self.spec["ops"][op["ref"]].get("s") if op["ref"] < len(self.spec["ops"]) else None
@@ -161,7 +193,7 @@ class World:
             self.stats["ops"] += 1
             self.stats["op_" + op["op"]] += 1
             # B: caller data untouched -- checked after every event, also after failures
-            if self.violation is None:
+            if self.violation is None and in_scope(self.prop, "INPUT_MUTATED", op["op"]):
                 for sid, a in self.atoms.items():
                     d = self.snaps[sid].diff(a)
                     if d:
@@ -352,15 +384,14 @@ class World:
             self._violate(
                 "NONDET_HISTORY", i, "returned normally but the isolated execution raised %s" % _exc_desc(ref["exc"])
             )
-            return ev
-        if dg != ref["digest"]:
-            cls = "NONDET_HISTORY"
+        elif dg != ref["digest"]:
             self._violate(
-                cls,
+                "NONDET_HISTORY",
                 i,
                 "result differs from the isolated execution of the same call: sizes %s vs %s"
                 % (ev["sizes"], ref.get("sizes")),
             )
+        if self.violation is not None:
             return ev
         # D: the property's statement about the returned value
         self._check_D_clusters(i, op, atoms, params, clusters)
@@ -772,13 +803,16 @@ class World:
         if ref["out"] != "ok":
             self._violate("NONDET_HISTORY", i, "returned normally but the isolated execution raised %s" % _exc_desc(ref["exc"]))
             return ev
-        if dg != ref["digest"]:
+        if dg["type"] != ref["digest"]["type"]:
+            # the statement: "repeated calls give the same class"
             self._violate(
                 "NONDET_HISTORY",
                 i,
-                "classification differs from the isolated execution of the same call: %s vs %s" % (dg["type"], ref["digest"]["type"]),
+                "class differs from the isolated execution of the same call: %s vs %s" % (dg["type"], ref["digest"]["type"]),
             )
             return ev
+        if dg != ref["digest"]:
+            self.probes["same_class_other_region"] += 1
         # D
         w = self._pristine(op["s"])
         try:
@@ -888,6 +922,8 @@ class World:
             return
         from matsim.sio import digests_close
 
+        if self.prop == "C17":
+            dg, other = {"type": dg["type"]}, {"digest": {"type": other["digest"].get("type")}}
         why = digests_close(dg, other["digest"])
         if why:
             self._violate("NONDET_HASHSEED", i, "result differs in an interpreter with another PYTHONHASHSEED: %s" % why)
